@@ -368,3 +368,129 @@ func TestC38(t *testing.T) {
 			return res.C["checkpoints-with-undurable-tail"] > 0 || res.C["checkpoints-restricted"] > 0
 		}, nil)
 }
+
+var profIngest = Profile{
+	Name: "ingest", MinSteps: 12, MaxSteps: 55, IterOpsMax: 5, MaxIters: 3, MaxSnaps: 2, MaxEFOS: 1,
+	W: map[string]int{"write": 26, "batch": 8, "flush": 4, "compact": 3, "wait": 3, "ingest": 18, "ingestexcise": 8, "excise": 6, "get": 8, "scan": 8,
+		"iternew": 5, "iterop": 10, "iterclose": 2, "snap": 2, "snapread": 3, "snapclose": 1, "restart": 1, "efos": 1, "efosread": 2, "efosclose": 1},
+	OpW: opWDefault,
+	Opt: func(t *rapid.T, o *OptPlan) {
+		if o.FMV < int(pebble.FormatVirtualSSTables) && rapid.IntRange(0, 3).Draw(t, "c36fmv") > 0 {
+			o.FMV = int(pebble.FormatNewest)
+		}
+	},
+}
+
+func TestC36(t *testing.T) {
+	dbCheck(t, "C36", profIngest,
+		"histories dense in Ingest (1-3 non-overlapping tables with points, range deletions and range keys; overlapping the memtable or not; DisableIngestAsFlushable and IngestSplit drawn), IngestAndExcise and Excise, mixed with writes, open iterators, snapshots and EFOS; model: an ingestion is one atomic batch applied at that point (at equal seqnum a range deletion does not cover same-ingest points, SET beats UNSET beats DEL), IngestAndExcise = clear span then batch, Excise = clear span; iterators opened before keep their view. "+
+			"non-trivial = a flushable ingest happened or an excise produced virtual tables, and reads were compared afterwards; distinct = hash of plan JSON",
+		250, 1500,
+		func(res Result, ls []string) bool {
+			return (hasLabel(ls, "flushable-ingest") || hasLabel(ls, "virtual-tables")) && res.C["ingests"] > 0
+		}, nil)
+}
+
+var profEFOS = Profile{
+	Name: "efos", MinSteps: 12, MaxSteps: 55, IterOpsMax: 5, MaxIters: 2, MaxEFOS: 3,
+	W: map[string]int{"write": 30, "batch": 8, "flush": 6, "compact": 5, "wait": 3, "ingest": 3, "ingestexcise": 5, "excise": 6,
+		"efos": 8, "efosread": 24, "efoswait": 4, "efosclose": 3, "iternew": 2, "iterop": 4, "iterclose": 1},
+	OpW: opWDefault,
+	Opt: func(t *rapid.T, o *OptPlan) {
+		if o.FMV < int(pebble.FormatVirtualSSTables) {
+			o.FMV = int(pebble.FormatNewest)
+		}
+	},
+}
+
+func TestC37(t *testing.T) {
+	dbCheck(t, "C37", profEFOS,
+		"EventuallyFileOnlySnapshots over 1-2 protected ranges are created at drawn points and read (Get, scans, bounded iterators inside the ranges) before and after WaitForFileOnlySnapshot, after flushes, compactions, and excises/ingest-and-excises overlapping the ranges; every read must equal the model version at EFOS creation. "+
+			"non-trivial = an EFOS was read after later writes changed the latest state and an excise or compaction happened in the case; distinct = hash of plan JSON",
+		250, 1500,
+		func(res Result, ls []string) bool {
+			return res.C["efos-reads-after-write"] > 0 && (hasLabel(ls, "excise") || hasLabel(ls, "ingest-excise") || anyLabel(ls, "compaction="))
+		}, nil)
+}
+
+var profLevels = Profile{
+	Name: "merged-levels", MinSteps: 14, MaxSteps: 60, IterOpsMax: 14, MaxIters: 3, MaxSnaps: 3, NoRangeKeys: true, DurableIngest: true,
+	W: map[string]int{"write": 22, "batch": 8, "flush": 8, "ingest": 30, "compact": 1, "snap": 4, "snapread": 8, "snapclose": 1,
+		"iternew": 10, "iterop": 26, "iterclose": 3, "scan": 6},
+	OpW: map[string]int{"set": 28, "del": 8, "merge": 4, "delrange": 14, "sdel": 3, "delsized": 2},
+	Opt: func(t *rapid.T, o *OptPlan) {
+		o.DisableAutoCompaction = true
+		o.TargetFileSize = rapid.SampledFrom([]int64{64, 256}).Draw(t, "c33tfs")
+		o.BlockSize = rapid.SampledFrom([]int{1, 32, 128}).Draw(t, "c33bs")
+	},
+}
+
+func TestC33(t *testing.T) {
+	dbCheck(t, "C33", profLevels,
+		"with automatic compactions disabled a multi-level LSM is constructed through the public API: tables ingested bottom-up (non-overlapping ones land in L6, overlapping ones above), several files per level with gaps, range deletions spanning file boundaries and shadowing lower levels, then flushes (L0 sublevels) and a live memtable, with snapshots between the stages; point iterators (the mergingIter/levelIter stack) at each snapshot and at the latest state receive seek/step/direction-switch sequences with drawn bounds and prefix seeks and are compared with the model at their read sequence number. "+
+			"non-trivial = at least 3 non-empty levels existed, a range deletion was written and >= 20 iterator ops ran; distinct = hash of plan JSON",
+		250, 2000,
+		func(res Result, ls []string) bool {
+			return res.C["max-nonempty-levels"] >= 3 && hasLabel(ls, "op=delrange") && res.C["iterops"] >= 20
+		}, nil)
+}
+
+var profValSep = Profile{
+	Name: "valsep", MinSteps: 12, MaxSteps: 55, IterOpsMax: 6, MaxIters: 2, MaxSnaps: 1, DurableIngest: true,
+	W: map[string]int{"write": 34, "batch": 12, "flush": 9, "compact": 8, "wait": 5, "get": 10, "scan": 10, "restart": 2, "ingest": 2,
+		"iternew": 3, "iterop": 6, "iterclose": 1, "snap": 1, "snapread": 2, "snapclose": 1, "crashrestart": 1},
+	OpW: map[string]int{"set": 50, "del": 6, "merge": 6, "delrange": 3, "sdel": 2, "delsized": 2, "rkset": 2},
+	CrashGen: func(t *rapid.T, o OptPlan) *CrashPlan {
+		cp := crashGen(25)(t, o)
+		cp.MaxImages, cp.Hot = 60, 7
+		return cp
+	},
+	Opt: func(t *rapid.T, o *OptPlan) {
+		if o.FMV < int(pebble.FormatValueSeparation) {
+			o.FMV = rapid.SampledFrom([]int{int(pebble.FormatValueSeparation), int(pebble.FormatV2BlobFiles), int(pebble.FormatNewest)}).Draw(t, "c44fmv")
+		}
+		o.ValSep = true
+		o.ValSepMinSize = rapid.SampledFrom([]int{4, 10, 32, 64}).Draw(t, "c44min")
+		o.ValSepDepth = rapid.IntRange(1, 5).Draw(t, "c44depth")
+		o.ValSepGarbageLow = rapid.SampledFrom([]int{5, 30, 100}).Draw(t, "c44glow")
+		o.DisableWAL = false
+	},
+}
+
+func TestC44(t *testing.T) {
+	crashCheck(t, "C44", profValSep,
+		"value separation enabled with drawn thresholds (MinimumSize 4-64, MVCC-garbage size, reference depth 1-5, rewrite age 0, garbage ratios that force blob-file rewrites), values of 0-5000 bytes straddling the thresholds (older versions of a prefix are likely MVCC garbage), flushes, compactions, restarts, snapshots and crash images/crash-and-continue; every value read through Get, Iterator.Value, ValueAndErr and LazyValue().Value() must equal the model bytes, before and after each maintenance step and after recovery. "+
+			"non-trivial = blob files were live at some point and a compaction happened while values were compared afterwards; distinct = hash of plan JSON",
+		120, 1000,
+		func(res Result, ls []string) bool {
+			return hasLabel(ls, "blob-files-live") && anyLabel(ls, "compaction=")
+		})
+}
+
+var profLevelInv = Profile{
+	Name: "levels", MinSteps: 20, MaxSteps: 70, DurableIngest: false, BigValues: true,
+	W: map[string]int{"write": 30, "batch": 10, "bigbatch": 2, "flush": 10, "compact": 6, "wait": 8, "ingest": 16, "ingestexcise": 5, "excise": 4, "restart": 1, "snap": 2, "snapclose": 1},
+	OpW: opWDefault, MaxSnaps: 2,
+	Opt: func(t *rapid.T, o *OptPlan) {
+		o.CheckLevels = true
+		o.MemTableSize = rapid.SampledFrom([]int{4 << 10, 8 << 10}).Draw(t, "c15mem")
+		o.L0CompactionFiles = 500
+		o.LBaseMaxBytes = rapid.SampledFrom([]int64{256, 1 << 10}).Draw(t, "c15lbase")
+		o.TargetFileSize = rapid.SampledFrom([]int64{64, 256}).Draw(t, "c15tfs")
+		o.L0Compaction = rapid.IntRange(2, 4).Draw(t, "c15l0c")
+		o.ConcurrencyMax = rapid.IntRange(1, 4).Draw(t, "c15conc")
+		if o.FMV < int(pebble.FormatVirtualSSTables) && rapid.IntRange(0, 2).Draw(t, "c15fmv") > 0 {
+			o.FMV = int(pebble.FormatNewest)
+		}
+	},
+}
+
+func TestC15(t *testing.T) {
+	dbCheck(t, "C15", profLevelInv,
+		"histories biased to ingests that slot into low levels, flushable ingests, IngestSplit, excises, intra-L0 and multi-level compactions (small L0 thresholds, concurrency 1-4); Options.DebugCheck = DebugCheckLevels runs on every version install; after every structural step DB.CheckLevels must return nil and an independent checker over DebugCurrentVersion() + the tables' contents (read with sstable.Reader) verifies: per-level / per-sublevel ordering and disjointness, sublevel order by seqnum for overlapping L0 tables, every key inside its table's recorded bounds and sequence range, and for every user key all versions at a higher LSM position newer than those below. "+
+			"non-trivial = >= 3 non-empty levels and >= 2 L0 sublevels occurred and an ingest happened, with >= 1 independent check executed; distinct = hash of plan JSON",
+		150, 800,
+		func(res Result, ls []string) bool {
+			return res.C["max-nonempty-levels"] >= 3 && res.C["max-l0-sublevels"] >= 2 && res.C["ingests"] > 0 && res.C["levelchecks"] > 0
+		}, nil)
+}
